@@ -28,6 +28,11 @@ if bad:
     print("REJECTED: existing tests fail with the change:",bad[:5]); sys.exit(1)
 PY
 cmd=$(python3 -c "import json;print(json.load(open('$out/meta.json'))['demo_cmd'])")
+# a demo_cmd that does not copy the demonstration itself: put the test file(s) into the package the command tests
+if ! echo "$cmd" | grep -q "cp "; then
+  pkgdir=$(echo "$cmd" | grep -o '\./pkg/[A-Za-z0-9_/]*' | tail -1)
+  [ -n "$pkgdir" ] && cmd="cp $out/*_test.go $pkgdir/ && $cmd"
+fi
 ( eval "$cmd" ) > /tmp/seed/$id.c$k.demo_with.txt 2>&1; rc_with=$?
 git apply -R $out/patch.diff
 ( eval "$cmd" ) > /tmp/seed/$id.c$k.demo_without.txt 2>&1; rc_without=$?
